@@ -718,7 +718,14 @@ def tier_overloads(runner, hist, dis, rng, n_sets):
                 ('Bin', 'Add', V('pbyte'), ('Int', 1)), ('Bin', 'Add', V('pint'), ('Int', 1)), V('ki'), V('kb'),
                 ('Call', 'e'), ('Is', ('Int', 1), 'int'), ('Is', ('Bool', True), 'int')] + \
                [V('p' + tn(t)) for t in VALUE_TYPES]
+    # array literals mixing element kinds in every order: the inferred element type depends on every element, not on the first of each type
+    kinds = [V('pbyte'), ('Int', 0), V('pint'), ('Char', 98), ('Bin', 'Add', V('pbyte'), ('Int', 1)), ('Call', 'e'), ('Int', 300), V('kb'), V('ki')]
+    mixed = [('Arr', a, b, c) for a in kinds[:5] for b in kinds[:6] for c in kinds]
+    rng.shuffle(mixed)
+    args_cat = args_cat + mixed[:12]
     progs = []
+    for lit3 in mixed[:150]:
+        progs.append(test_program([('Expr', ('Call', 'write', ('Index', lit3, ('Int', 1))))], name='!t'))
     # every builtin write/writeln overload with every argument
     for a in args_cat:
         for fn in ('write', 'writeln', 'sleep', '!truth_is_defeat', 'print', 'println'):
